@@ -130,6 +130,9 @@ func runMatchCase(id int, c gen.MatchCase, reps int, crashed bool, probe bool) (
 	p0, f0, b0 := gen.Canon(c.P), gen.Canon(c.F), gen.Canon(c.Bs)
 	for i := 0; i < reps; i++ {
 		bs := match.Bindings(c.Bs)
+		if len(c.Bs) == 0 && i == reps-1 && reps > 1 {
+			bs = nil // no bindings given, as the Go zero value (a State whose Bs was never set)
+		}
 		o, bss := matchOnce(c.P, c.F, bs)
 		k := gen.Canon(o)
 		if !seen[k] {
